@@ -18,6 +18,9 @@ FmtEncSame == <<37, 120, 37, 32, 61, 32>>                      \* "%x% = "
 FmtEncNest == <<60, 120, 62, 32, 61, 32>>                      \* "<x> = "
 FmtOpt     == <<123, 95, 125, 32, 61, 32>>                     \* "{_} = "
 FmtOptEnd  == <<123, 95, 125, 32, 61, 59>>                     \* "{_} =;"
+FmtSepBlank == <<91, 32, 93, 32, 32, 32, 35>>                  \* "[ ]   #"   blank as assign character
+FmtOptBlank == <<91, 95, 93, 32, 32, 32, 35>>                  \* "[_]   #"
+FmtEncBlank == <<37, 120, 37, 32, 32, 59, 35>>                 \* "%x%  ;#"   blank assign, option end
 
 AccEf   == <<69, 102>>
 AccEsnw == <<69, 115, 110, 119>>
@@ -30,7 +33,8 @@ Cfg(f, a) == [fmt |-> f, acc |-> a]
 ShippedConfigs == {Cfg(FmtDefault, Null), Cfg(FmtOnline, AccEf), Cfg(FmtLayout, AccEsnw), Cfg(FmtLayAlt, Null),
                    Cfg(FmtSubsect, AccE), Cfg(FmtConfig, AccEsc)}
 MoreConfigs == {Cfg(FmtEncSame, Null), Cfg(FmtEncNest, Null), Cfg(FmtOpt, AccNs), Cfg(FmtOptEnd, Null),
-                Cfg(FmtDefault, AccNs), Cfg(FmtConfig, AccAll), Cfg(FmtOnline, AccAll)}
+                Cfg(FmtDefault, AccNs), Cfg(FmtConfig, AccAll), Cfg(FmtOnline, AccAll),
+                Cfg(FmtSepBlank, Null), Cfg(FmtOptBlank, AccNs), Cfg(FmtEncBlank, Null)}
 MCConfigs == ShippedConfigs \cup MoreConfigs
 
 nA == B(<<97>>)  nB == B(<<98>>)  nA1 == B(<<97, 49>>)  n1 == B(<<49>>)  nE == <<>>
@@ -64,7 +68,7 @@ MCDecosT == {DTight, DSpaced, DCom, DBlank, DGlue}
 \* thorough: the slots vary independently (gap x blank before '=' x blank after the value x value end)
 MCDecosP == ({D(g, IF g = "none" THEN "none" ELSE "nl", b1, b1, b3, t) :
                g \in {"none", "com"}, b1 \in {"none", "sp"}, b3 \in {"none", "sp"}, t \in {"nl", "com"}} \ {D("none", "none", "sp", "sp", "none", "com"), D("com", "nl", "sp", "sp", "none", "com")}) \cup {DGlue}
-MCConfigsQ == ShippedConfigs \cup {Cfg(FmtEncSame, Null), Cfg(FmtEncNest, Null), Cfg(FmtOptEnd, Null)}
+MCConfigsQ == ShippedConfigs \cup {Cfg(FmtEncSame, Null), Cfg(FmtEncNest, Null), Cfg(FmtOptEnd, Null), Cfg(FmtSepBlank, Null)}
 
 Bound == TRUE
 View == <<cfg, text, stack, nn>>                   \* obs is an observation, not state
